@@ -110,9 +110,7 @@ Record term := mkTerm { t_lines : Z; t_cols : Z; tg : list (list tcell); t_line 
 
 (* pens on the terminal are compared by their values (tickit_term_setpen leaves the terminal's
    pen equivalent to the one given); keep them in the all-attributes-present form *)
-Definition canon_pen (p : pen) : pen :=
-  mkPen (Some (attr_get DFLT_COLOUR (p_fg p))) (Some (attr_get DFLT_COLOUR (p_bg p)))
-        (Some (attr_get DFLT_BOOL (p_b p))) (Some (attr_get DFLT_INT (p_u p))).
+Definition canon_pen (p : pen) : pen := pen_build (fun a => Some (preads p a)).
 
 Definition bound (v lo hi : Z) : Z := if v <? lo then lo else if v >? hi then hi else v.
 
@@ -170,7 +168,7 @@ Fixpoint t_run (t : term) (ops : list termop) : res term :=
 
 (* the sentinel pattern the harness draws before flushing, so that `untouched' is visible *)
 Definition sentinel_cell (l c : Z) : tcell :=
-  mkT [0x61 + (l * 7 + c * 3) mod 26] (canon_pen (mkPen (Some (16 + (l + 2 * c) mod 5)) None None None)).
+  mkT [0x61 + (l * 7 + c * 3) mod 26] (canon_pen (pen_fg (16 + (l + 2 * c) mod 5))).
 
 Definition t_init (lines cols gl gc : Z) (p : pen) (maybe_moves : bool) : term :=
   mkTerm lines cols
